@@ -15,6 +15,8 @@ import (
 
 func timeAfter(d time.Duration) <-chan time.Time { return time.After(d) }
 
+func sprint(v interface{}) string { return fmt.Sprint(v) }
+
 type stats struct {
 	Driver    string         `json:"driver"`
 	Seed      int64          `json:"seed"`
@@ -98,6 +100,8 @@ func main() {
 		cmdSeq(os.Args[2:])
 	case "enum":
 		cmdEnum(os.Args[2:])
+	case "reclaim":
+		cmdReclaim(os.Args[2:])
 	default:
 		fmt.Fprintf(os.Stderr, "unknown command %q\n", os.Args[1])
 		os.Exit(2)
